@@ -351,9 +351,11 @@ func (in *Interp) resetPath(prefix []dec) {
 	in.maxTimerFires = 0
 	in.preempts = 0
 	in.hashUF = false
+	in.vnow = 0
 	in.lockTrace = false
 	in.raceCheck = false
 	in.clockForce = nil
+	in.clockFrozen = nil
 	in.wg = map[lockKey]int{}
 	in.once = map[lockKey]bool{}
 	in.atomVals = map[lockKey]Value{}
